@@ -158,6 +158,8 @@ fn grm_json(g: &YaccGrammar<u32>) -> Value {
         "expect": g.expect().map(|x| digits(x)).unwrap_or_default(), "expectrr": g.expectrr().map(|x| digits(x)).unwrap_or_default(),
         "implicit_rule": g.implicit_rule().map(|x| usize::from(x) as i64).unwrap_or(-1),
         "programs": g.programs().as_ref().map(|t| json!([cps(t)])).unwrap_or(json!([])),
+        "parse_param": g.parse_param().as_ref().map(|(n, t)| json!([cps(n), cps(t)])).unwrap_or(json!([])),
+        "parse_generics": g.parse_generics().as_ref().map(|t| json!([cps(t)])).unwrap_or(json!([])),
     })
 }
 
